@@ -93,6 +93,8 @@ type cursor struct {
 	nextLine     lineBreakClass // the Line Break Class at index i+1
 	// the Line Break Class of the first rune after index i which is not CM or ZWJ (see rule LB9)
 	nextLineAfterMarks lineBreakClass
+	// the rune that carries prevLine (see rules LB9 and LB10)
+	prevLineRune rune
 
 	// the last rune after spaces, used in rules LB14,LB15,LB16,LB17
 	// to match ... SP* ...
